@@ -467,6 +467,7 @@ func declModify(w *out.W) {
 func sourceMain(w *out.W, tier string) {
 	declOrders(w, tier)
 	declModify(w)
+	qualifySource(w, tier)
 	perms := 6
 	if tier == "thorough" {
 		perms = 40
